@@ -104,7 +104,7 @@ def main():
                 fmt = fmt_of(opc.version_tuple)
                 if fmt is None:
                     continue
-                for p, c in walk(co):
+                for n_, (p, c) in enumerate(walk(co)):
                     ident = "%s#%s" % (path, p)
                     try:
                         with xd.quiet():
@@ -113,6 +113,17 @@ def main():
                         import traceback
                         r = {"id": ident, "error": "%s: %s" % (type(e).__name__, e), "tb": traceback.format_exc()[-600:]}
                     fh.write(json.dumps(r) + "\n")
+                    if n_ < 3 and "error" not in r and hasattr(c, "replace"):
+                        # portable code objects are mutable: after the first reading, a copy with another first line must be read
+                        # from its own fields (anything remembered from the first reading would show as the old lines)
+                        ident2 = ident + "@firstline+100"
+                        try:
+                            with xd.quiet():
+                                q = c.replace(co_firstlineno=c.co_firstlineno + 100)
+                                r2 = record(q, opc, ident2, fmt)
+                        except Exception as e:
+                            r2 = {"id": ident2, "error": "%s: %s" % (type(e).__name__, e)}
+                        fh.write(json.dumps(r2) + "\n")
         else:
             for line in open(inp):
                 b = json.loads(line)
